@@ -53,15 +53,17 @@ class PairModel(Model):
         self.decl = None
         ca = em.cdecl(a.strip_ref(), 'first') if not a.is_ref() else em.cdecl(a, 'first')
         cb = em.cdecl(b.strip_ref(), 'second') if not b.is_ref() else em.cdecl(b, 'second')
-        em.typeorder.append(('inst', cname, 'struct %s { %s; %s; };' % (cname, ca, cb)))
+        ta = em.ctype(a.strip_ref() if not a.is_ref() else a)
+        tb = em.ctype(b.strip_ref() if not b.is_ref() else b)
+        em.typeorder.append(('inst', cname, 'struct %s { %s; %s; };\nstatic inline struct %s %s_mk(%s a, %s b) { struct %s p; p.first = a; p.second = b; return p; }' % (
+            cname, ca, cb, cname, cname, ta, tb, cname)))
 
     def construct(self, fe, cty, args, node):
         if len(args) == 1:
             # copy / converting construction from another pair with the same layout
             return fe.expr(args[0])
         if len(args) == 2:
-            tmp = fe.new_tmp(self.ctype)
-            return '(%s.first = %s, %s.second = %s, %s)' % (tmp, fe.expr(args[0]), tmp, fe.expr(args[1]), tmp)
+            return '%s_mk(%s, %s)' % (self.cname, fe.expr(args[0]), fe.expr(args[1]))
         if not args:
             tmp = fe.new_tmp(self.ctype)
             parts = []
@@ -78,6 +80,12 @@ class PairModel(Model):
 
     def init_list(self, fe, n):
         return self.construct(fe, None, n.get('inner', []), n)
+
+
+def pure_expr(e):
+    """no assignment / increment inside: safe to mention twice"""
+    import re as _re
+    return not _re.search(r'(?<![=!<>])=(?!=)|\+\+|--', e)
 
 
 def scalar(ty):
@@ -206,6 +214,10 @@ class VectorModel(ContainerModel):
         if name == 'emplace_back':
             return '%s_push_back(%s, %s)' % (c, pb, self.mk_value(fe, args, self.elem))
         if name in ('operator[]', 'at') and len(args) == 1:
+            # element access as an array-index lvalue (bounds asserted by NAME_chk) rather than through a pointer-returning
+            # function: cheaper for CBMC and keeps the points-to reasoning trivial
+            if pure_expr(b) and pure_expr(A[0]):
+                return '%s.e[%s_chk(%s, %s)]' % (paren_lv(b), c, pb, A[0])
             return deref('%s_idx(%s, %s)' % (c, pb, A[0]))
         if name == 'reserve':
             return '((void)0)'
@@ -606,4 +618,12 @@ def default_registry():
         fe.em.static_funcs.append('CM_SORT(%s, %s, %s)' % (sname, m.elem, lname))
         return '%s(%s, %s)' % (sname, fe.expr(args[0]), fe.expr(args[1]))
     r.free['sort'] = h_sort
+
+    def h_make_pair(fe, args, node):
+        t = fe.ty(node)
+        m = r.lookup(fe.em, t)
+        if m is None:
+            brk('make_pair of %r' % t)
+        return m.construct(fe, None, args, node)
+    r.free['make_pair'] = h_make_pair
     return r
